@@ -1162,7 +1162,7 @@ func main() {
 	for _, c := range corpus() {
 		run(c.Name, c.H, c.Q, gen.Fork(f.Seed, id))
 	}
-	n := f.Count(9, 240)
+	n := f.Count(5, 180)
 	for i := 0; i < n; i++ {
 		g := gen.Fork(f.Seed, id)
 		run("random", genHistory(g), nil, g)
